@@ -3,13 +3,66 @@ SPEC = {
     'harness': 'hC05',
     'coq_dir': 'C05',
     'claimed': False,
-    'theorems': ['C05_refuted', 'C05_refuted_fork', 'C05_commit_tree_is_C01_set'],
+    'theorems': [
+        'C05_refuted', 'C05_refuted_fork', 'C05_prune_keeps_live_partial', 'C05_guard_nonvacuous',
+        'C05_prune_deletes_only_superseded', 'C05_commit_tree_is_C01_set',
+    ],
     'allowed_axioms': [],
-    'shard': 40,
+    'shard': 32,
     'check_preamble': 'Open Scope N_scope.\n',
-    'rule': 'TODO',
-    'trusted_base': [],
-    'assumptions': [],
-    'manifest': {'level_text': 'TODO', 'level_note': 'TODO', 'technique': 'TODO'},
-    'harness_timeout': {'quick': 300, 'thorough': 3000},
+    'rule': 'one case = one history of commits / pruning runs / restarts run against the real mavl node database '
+            '(mavl/db: SetKVPair, GetKVPair, PruningTree; EnableMavlPrefix + EnableMavlPrune as the store forces; '
+            'PruneHeight 2-5) on a scratch LevelDB without the ARC node cache. A commit names its parent (an earlier '
+            'commit of the history inside the retained interval, or the empty root), its height and its write set, and '
+            'is applied through SetKVPair or through the MemSet+Commit path (empty write set = no store call). The '
+            'background pruning run that Tree.Save starts at heights that are multiples of PruneHeight is awaited '
+            '(hook VerifWaitPrune), PruningTree is also called directly at heights up to the top, restarts reset the '
+            'package globals. After every commit / pruning run: every key of the universe (3-13 keys incl. the empty key, '
+            'prefixes of each other, an absent key) is read at EVERY distinct state root produced so far (live or not), and '
+            'the database records are counted by class (nodes, level-1/level-2 index entries, root records, total ancestor '
+            'hashes, maxBlockHeight, secLvlPruningHeight). A history ends at the first unreadable live version or failing commit. '
+            'Streams: 2 fixed witnesses; GUARDED (any spec failure is a violation unless it matches finding 3): linear small / '
+            'linear with height gaps and empty heights / forks and re-commits with consecutive heights where every height '
+            'saves and every state is new / linear with height jumps across the 500000 and 1500000 thresholds / large '
+            '(12 keys, 30 commits); UNRESTRICTED: same-value rewrites, empty heights on forks, exact re-commits, empty values. '
+            'non-trivial = at least 3 commits, a version with >= 2 keys and at least one pruning run; distinct = distinct case terms',
+    'trusted_base': [
+        'SHA-256 over the protobuf encoding of LeafNode/InnerNode is idealised as a free term algebra (C01\'s symbolic hash; '
+        'injective); database keys = optional height prefix + hash, the prefix never enters a hash (InnerNode.Hash trims)',
+        'LevelDB is an oracle (finite map with batch writes); the ARC node cache is switched OFF in the harness (raw '
+        'dbm.NewDB without SetCacheSize): reads behave as after a process restart. With the cache a deleted node of height > 2 '
+        'stays readable until restart, and a cached node object carries a stale parentNode pointer into later commits '
+        '(an older root hash can be appended to an index entry) - noted, not modelled',
+        'hook /repo/system/store/mavl/db/prune_verif.go: VerifResetPruneGlobals (maxBlockHeight, secLvlPruningH, quit, '
+        'pruningState back to process-start values), VerifWaitPrune (wg.Wait without quit), VerifPruneConsts',
+        'the MemSet shortcut of the store ("empty write set: keep the parent root, no tree") is transcribed in the harness '
+        '(mode 1 with an empty write set makes no call); non-empty MemSet+Commit equals SetKVPair',
+        'the spec oracle (Spec.v) uses C01\'s finite-map specification (apply_writes / sget) for the abstract states; '
+        'live = on the tip\'s chain and within PruneHeight of the greatest height committed so far',
+    ],
+    'assumptions': [
+        'heights 0 <= h < 10^10 (the %010d key layout is order preserving); int32/int64 arithmetic does not overflow',
+        'the flush thresholds of the scan loops (999 distinct keys / 10000 entries per round) are not reached: one round '
+        'per pruning run (model and generated histories)',
+        'a commit materialises the whole parent version in the model, Go loads lazily: equal while the parent version is '
+        'complete, and a history ends at the first incomplete live version',
+        'GetKVPair cannot distinguish an empty value from an absent key (both nil): read code "absent" for both',
+        'the partial theorem covers LINEAR histories (every commit builds on the previous one; height gaps, empty write sets, '
+        'MemSet shortcut, arbitrary pruning runs up to the top height, all three pruning levels with arbitrary thresholds '
+        '>= PruneHeight); histories with re-organisations are covered by the correspondence check only',
+    ],
+    'manifest': {
+        'level_text': 'partial: unbounded Coq theorem for linear histories under the boolean guard "every writing commit '
+                      'produces a state root not produced before" (all configurations, write sets, height gaps, interleaved '
+                      'pruning runs, three levels); full-strength statement refuted in Coq with two witnesses reproduced on '
+                      'the Go code; fork/re-commit histories by in-kernel correspondence on generated histories; three open '
+                      'known findings',
+        'level_note': 'symbolic injective hash (C01), LevelDB as oracle, node cache off, add-only hook to reset/await the '
+                      'package-level pruning state; model = annotated-tree transcription of tree.go/node.go/prune.go whose '
+                      'erasure is proved equal to C01\'s set',
+        'technique': 'Coq proof (history invariant by induction over operation lists: stamped version trees, creation sets '
+                     'of database keys, index-entry provenance; safety argument for deleted keys) + in-kernel correspondence '
+                     'check (vm_compute) on generated commit/prune histories',
+    },
+    'harness_timeout': {'quick': 600, 'thorough': 6000},
 }
